@@ -157,9 +157,10 @@ AlphaWithoutBeta(P, Q) ==
   LET p == (P - 1) \div 2  q == (Q - 1) \div 2 IN {alpha \in Units(P * Q) : Inverses(alpha % (p * q), p * q) = {}}
 
 (* a Paillier key of crypto/paillier.GenerateKeyPair for modulus length bits *)
+SafePrimeOfLen(P, bits) == IsPrime(P) /\ IsPrime((P - 1) \div 2) /\ BitLen(P) = bits
 PaillierKey(bits, P, Q, N, phi, lambda) ==
   /\ P # Q
-  /\ SafePair((P - 1) \div 2, P, bits \div 2) /\ SafePair((Q - 1) \div 2, Q, bits \div 2)
+  /\ SafePrimeOfLen(P, bits \div 2) /\ SafePrimeOfLen(Q, bits \div 2)
   /\ N = P * Q /\ BitLen(N) = bits
   /\ phi = (P - 1) * (Q - 1)
   /\ lambda * Gcd(P - 1, Q - 1) = phi
